@@ -122,4 +122,20 @@ INVARIANT NormalizeModel
         kind = evid.split(":")[0]
         return f"{PID}/{'+'.join(sorted(set(c.split('.', 1)[1] for c in clauses)))}/{kind}/ver{evid.split(':')[1] if kind in ('h', 'v', 'c') else df.ver_of(evid)}"
 
+    def corrupt(e):
+        if not e.get("has_c0") or not e["d"]["instrs"]:
+            return None
+        e["d"]["instrs"][0][4] = 3         # a normalised instruction that still carries an operand width
+        return e
+
+    df.negative_control(rep, files, "Trace_Encode", corrupt, ("P06.canonical",))
+
+    def corrupt_h(e):
+        if "steps" not in e or not any(st["eq"] for st in e["steps"]):
+            return None
+        for st in e["steps"]:
+            st["eq"] = []
+        return e
+
+    df.negative_control(rep, api_files, "Trace_Api", corrupt_h, ("P06.", "P07.", "P01."))
     df.classify(rep, fails, ("P06.",), PID, keyfn)
